@@ -4,7 +4,7 @@ Most frame obligations live on the contracts of the other properties (they are t
 composites, Deseasonalizer, OptionalPassthrough, adaptor, forests, ensembles, segmenters, row transformers); this file adds
 the series transformers that overwrite values in place and therefore must detach from their input first."""
 from pyvc.spec import *   # noqa
-from pyvc.values import SArr, SList, SObj, Opaque, SSeries, SFrame
+from pyvc.values import SArr, SList, SObj, Opaque, SSeries, SFrame, NAN
 from pyvc import ops
 import z3
 from contracts.C01_split import sym_series
@@ -75,3 +75,64 @@ contract(f"{IMP}::Imputer.transform", "C12,C13", cases=[f"{m}|{v}" for m in _IMP
          notes=["univariate series; pandas fillna / replace / interpolate return new objects (values not modelled here: the imputed "
                 "values are compared with the rule's formula by the C14 bounded tier); methods random / drift / forecaster are "
                 "bounded-tier only"])
+
+
+def _imp_rule(A, r):
+    """the pandas operation chain is the chosen rule: [replace missing_values by NaN] -> rule -> forward fill -> backward fill,
+    each step applied to the result of the previous one (starting from a COPY of the input)"""
+    from contracts.C07_evaluate import trace
+    method = A.self.attrs["method"]
+    mv = A.self.attrs["missing_values"]
+    evs = [e for e in trace() if e.method.startswith("series.")]
+    cur = None          # the series the next step must be applied to (None: any fresh copy of Z)
+    k = 0
+
+    def step(name, check):
+        nonlocal cur, k
+        if k >= len(evs) or evs[k].method != "series." + name:
+            return False
+        e = evs[k]
+        recv = e.args[0]
+        if cur is None:
+            if recv is A.Z or not isinstance(recv, SSeries) or not (recv.values is A.Z.values or recv.index is A.Z.index):
+                return False
+        elif recv is not cur:
+            return False
+        if not check(e):
+            return False
+        k += 1
+        return e
+    if mv is not None:
+        e = step("replace", lambda e: e.kwargs.get("to_replace") is mv and e.kwargs.get("value") is NAN)
+        if not e:
+            return False
+        cur = e.result
+    if method == "constant":
+        e = step("fillna", lambda e: e.kwargs.get("value") is A.self.attrs["value"])
+    elif method in ("ffill", "bfill", "pad", "backfill"):
+        e = step("fillna", lambda e: e.kwargs.get("method") == method)
+    elif method in ("mean", "median"):
+        agg = step(method, lambda e: True)
+        if not agg:
+            return False
+        e = step("fillna", lambda e: e.kwargs.get("value") is agg.result)
+    elif method in ("nearest", "linear"):
+        e = step("interpolate", lambda e: e.kwargs.get("method") == method)
+    else:
+        return False
+    if not e:
+        return False
+    cur = e.result
+    e = step("fillna", lambda e: e.kwargs.get("method") == "ffill")
+    if not e:
+        return False
+    cur = e.result
+    e = step("fillna", lambda e: e.kwargs.get("method") == "backfill")
+    if not e:
+        return False
+    return k == len(evs) and r is e.result
+
+
+REG_IMP = REGISTRY[f"{IMP}::Imputer.transform"]
+REG_IMP.ensures.append(("the-chosen-rule-then-forward-and-backward-fill", _imp_rule, {"modular": False}))
+REG_IMP.prop = "C12,C13,C14"
